@@ -20,9 +20,11 @@ import (
 )
 
 // Concurrent callers: k goroutines each perform one sentinel.Entry on a resource with one
-// throttling rule; the deterministic scheduler parks them at the yield points 201..205 that
-// precede every atomic access of ThrottlingChecker.DoCheck; the schedule interleaves single
-// steps of callers with moves of the virtual clock.
+// throttling rule; the deterministic scheduler parks them at the yield points that precede
+// every atomic access of ThrottlingChecker.DoCheck (201 = Load, 202 = CAS of the compare-and-swap
+// loop; ids 203..205 stay active so that a tree with the former Add / rollback protocol is still
+// stepped access by access); the schedule interleaves single steps of callers with moves of the
+// virtual clock.
 
 const concBase = 100000
 
@@ -50,6 +52,7 @@ type concObs struct {
 	Paths    [][]int `json:"paths"` // per caller: the labels it was parked at before each of its steps
 	StepIdx  [][]int `json:"-"`     // per caller: event index of each of its steps
 	Finished bool    `json:"finished"`
+	Stuck    []int   `json:"stuck,omitempty"` // callers that did not return even when stepped alone
 }
 
 func run(tid int) evT     { return evT{Kind: "run", Tid: tid} }
@@ -72,40 +75,68 @@ func one(e evT) []evT { return []evT{e} }
 
 const sec = uint64(1000000000)
 
-// witnessD8: add/rollback overlapping another caller's admission (DESIGN section 8, D8).
+// Regression witnesses: the schedules that broke the former load / CAS-if-idle / Add / rollback
+// protocol (findings C10-F1 and C10-F2, repaired by /repo 65f15f6).  On the CAS loop they are
+// ordinary schedules (steps of a finished caller are no-ops); on a tree without the repair they
+// reproduce the two races step for step.
+
+// witnessD8Old: the D8 schedule with the step counts of the former protocol (yields 201..205).
 // Callers: 0=R0 1=A 2=D 3=B 4=C. threshold 1/s, max queueing 500 ms.
-func witnessD8(id int) concCase {
+// Former protocol: A (+0.5) is parked between Add(+interval) and Add(-interval) while the clock
+// moves to +2.5; B is admitted on the inflated value (+3.0); after A's rollback C gets +3.0 too.
+// CAS loop: A is scheduled for +1.0, D and C are rejected, B passes at +2.5.
+func witnessD8Old(id int) concCase {
 	t := t0ns
 	return concCase{ID: id, Name: "D8-rollback-overlap", T: 1, TimeoutMs: 500, StatMs: 0, Batches: []uint32{1, 1, 1, 1, 1},
-		Events: cat(one(clock(t)), runN(0, 3), // R0 passes at +0.0 by CAS
-			one(clock(t+sec/2)), runN(1, 3), // A (+0.5) passed the 203 test, parked before its Add
-			runN(2, 4),                        // D (+0.5) is scheduled for +1.0
-			runN(1, 1),                        // A adds: +2.0, over the limit, parked before its rollback
-			one(clock(t+5*sec/2)), runN(3, 4), // B (+2.5) is admitted on the inflated value: pass +3.0
-			runN(1, 1),  // A rolls back: stored time +2.0
-			runN(4, 4))} // C (+2.5): pass +3.0 again
+		Events: cat(one(clock(t)), runN(0, 3),
+			one(clock(t+sec/2)), runN(1, 3),
+			runN(2, 4),
+			runN(1, 1),
+			one(clock(t+5*sec/2)), runN(3, 4),
+			runN(1, 1),
+			runN(4, 4))}
 }
 
-// witnessStale: the loser of a CAS whose clock reading is older... rather: the winner's
-// reading is older than the loser's by more than two intervals; the loser is admitted by Add
-// with a negative estimated wait (sleeps 0, passes now) while the stored time stays in the past.
+// witnessStale: lost CAS against a caller with an older clock reading.
 // Callers: 0=B 1=A 2=C. threshold 1/s, max queueing 500 ms.
+// B reads the clock (+0.0) and stalls; A (+3.0) loads the initial value and is parked before its
+// CAS; B loads and wins the CAS (stored +0.0); A's CAS fails.  Former protocol: A falls through to
+// Add with a negative estimated wait, passes at +3.0 while the stored time is +1.0, and C (+3.0)
+// passes at +3.0 as well.  CAS loop: A reloads +0.0, passes at +3.0 and stores +3.0; C is rejected.
 func witnessStale(id int) concCase {
 	t := t0ns
-	return concCase{ID: id, Name: "stale-add-after-lost-cas", T: 1, TimeoutMs: 500, StatMs: 0, Batches: []uint32{1, 1, 1},
-		Events: cat(one(clock(t)), runN(0, 1), // B reads the clock (+0.0)
-			one(clock(t+3*sec)), runN(1, 2), // A (+3.0) loaded the initial value, parked before its CAS
-			runN(0, 2),  // B loads and wins the CAS: stored +0.0, passes
-			runN(1, 3),  // A loses the CAS, est = +1.0 - +3.0 < 0: Add, stored +1.0, A passes at +3.0 with wait 0
-			runN(2, 3))} // C (+3.0): stored +1.0 + 1 s <= now: CAS to +3.0, passes at +3.0 as well
+	return concCase{ID: id, Name: "stale-clock-lost-cas", T: 1, TimeoutMs: 500, StatMs: 0, Batches: []uint32{1, 1, 1},
+		Events: cat(one(clock(t)), runN(0, 1),
+			one(clock(t+3*sec)), runN(1, 2),
+			runN(0, 2),
+			runN(1, 3),
+			runN(2, 3))}
+}
+
+// witnessD8: the D8 situation in the steps of the CAS loop (Coq: C10_conc_d8_regression).
+// A (+0.5) is parked before its CAS; D (+0.5) is scheduled for +1.0; A's CAS fails; the clock
+// moves to +2.5; B passes at +2.5; A reloads and is rejected (its clock reading is stale);
+// C (+3.2) is scheduled for +3.5.
+func witnessD8(id int) concCase {
+	t := t0ns
+	return concCase{ID: id, Name: "D8-cas-loop", T: 1, TimeoutMs: 500, StatMs: 0, Batches: []uint32{1, 1, 1, 1, 1},
+		Events: cat(one(clock(t)), runN(0, 3),
+			one(clock(t+sec/2)), runN(1, 2),
+			runN(2, 3),
+			runN(1, 1),
+			one(clock(t+5*sec/2)), runN(3, 3),
+			runN(1, 1),
+			one(clock(t+16*sec/5)), runN(4, 3))}
 }
 
 func genConc(r *rng.R, id int) concCase {
 	switch id - concBase {
 	case 0:
-		return witnessD8(id)
+		return witnessD8Old(id)
 	case 1:
 		return witnessStale(id)
+	case 2:
+		return witnessD8(id)
 	}
 	c := concCase{ID: id}
 	c.T = fl(r.PickF(1, 1, 2, 5, 10, 2.5, 1000))
@@ -151,11 +182,15 @@ func genConc(r *rng.R, id int) concCase {
 		}
 		c.Events = append(c.Events, runN(tid, n)...)
 	}
-	// let every caller finish (at most 6 steps each), in a random order
-	for round := 0; round < 6; round++ {
+	// let every caller finish: two interleaved rounds, then each caller alone (a caller that
+	// nobody interferes with needs at most 3 steps in the CAS loop; 6 covers the former protocol)
+	for round := 0; round < 2; round++ {
 		for _, tid := range r.Perm(k) {
 			c.Events = append(c.Events, run(tid))
 		}
+	}
+	for _, tid := range r.Perm(k) {
+		c.Events = append(c.Events, runN(tid, 6)...)
 	}
 	return c
 }
@@ -224,13 +259,23 @@ func runConc(c concCase, clk *vclock.Clock) concObs {
 	for i := 0; i < k; i++ {
 		if !s.IsDone(i) {
 			o.Finished = false
-			s.Finish(i)
+			// bounded: a caller that spins (a CAS that can never succeed) stays parked for good
+			for n := 0; n < 2*k+8 && !s.IsDone(i); n++ {
+				if s.Step(i) == -2 {
+					break
+				}
+			}
+			if !s.IsDone(i) {
+				o.Stuck = append(o.Stuck, i)
+			}
 		}
 		o.Out[i] = obsT{Pass: passed[i], Wait: waits[i], NSlp: nslp[i], BType: btype[i]}
 	}
 	return o
 }
 
+// Signatures of the two races of the former Add / rollback protocol (findings C10-F1, C10-F2,
+// repaired).  They can only come up on a tree that still has the yield points 204/205.
 const (
 	sigD8    = "rollback-overlaps-admission-pass-times-too-close"
 	sigStale = "lost-cas-stale-clock-add-admitted-without-wait-pass-times-too-close"
@@ -245,16 +290,27 @@ func contains(xs []int, v int) bool {
 	return false
 }
 
-// monitorConc: the property on the implementation's concurrent trace.
+// monitorConc: the property on the implementation's concurrent trace.  The monitor keeps its own
+// ledger (the latest pass time handed out, in the order of the successful compare-and-swaps it
+// sees in the trace) and never reads the checker's field.
 func monitorConc(c concCase, o concObs, rep *emit.Report) (overlap bool) {
 	T := float64(c.T)
 	maxq := int64(c.TimeoutMs) * 1000000
 	k := len(c.Batches)
+	failed := false
 	fail := func(clause, sig, format string, a ...interface{}) {
+		if failed { // one failure per case: the first clause that breaks
+			return
+		}
+		failed = true
 		rep.Fail(c.ID, clause, sig, fmt.Sprintf(format, a...), c)
 	}
+	if len(o.Stuck) > 0 {
+		fail("C10_conc_lock_free", "caller-spins-alone", "callers %v did not return although stepped alone for %d steps", o.Stuck, 2*k+8)
+		return
+	}
 	if !o.Finished {
-		fail("C10_conc_progress", "caller-did-not-finish-in-six-steps", "a caller needed more than 6 steps")
+		fail("C10_conc_lock_free", "caller-did-not-finish-in-six-steps-alone", "a caller needed more than 6 steps with nobody interfering")
 		return
 	}
 	type gr struct {
@@ -282,7 +338,7 @@ func monitorConc(c concCase, o concObs, rep *emit.Report) (overlap bool) {
 			continue
 		}
 		if early(T, b) {
-			fail("C10_reject_only_if_needed", "admitted-over-threshold", "caller %d batch %d threshold %v", i, b, T)
+			fail("C10_conc_reject_only_if_needed", "admitted-over-threshold", "caller %d batch %d threshold %v", i, b, T)
 			continue
 		}
 		if ob.Wait < 0 || ob.Wait > maxq {
@@ -290,7 +346,7 @@ func monitorConc(c concCase, o concObs, rep *emit.Report) (overlap bool) {
 		}
 		grants = append(grants, gr{i, o.Arrival[i] + ob.Wait, b}) // pass >= arrival because wait >= 0
 	}
-	// is there a rollback that overlaps another caller's access, or a stale add?
+	// former protocol only: a rollback that overlaps another caller's access, or a stale add
 	overlapRollback, staleAdd := false, false
 	for i := 0; i < k; i++ {
 		p := o.Paths[i]
@@ -299,7 +355,6 @@ func monitorConc(c concCase, o concObs, rep *emit.Report) (overlap bool) {
 				lo, hi := o.StepIdx[i][j-1], o.StepIdx[i][j]
 				for ei := lo + 1; ei < hi; ei++ {
 					if c.Events[ei].Kind == "run" && c.Events[ei].Tid != i && o.Ats[ei] >= 201 && o.Ats[ei] <= 205 {
-						// another caller accessed the shared time between the add and its rollback
 						overlapRollback = true
 					}
 				}
@@ -310,6 +365,7 @@ func monitorConc(c concCase, o concObs, rep *emit.Report) (overlap bool) {
 		}
 	}
 	overlap = overlapRollback || staleAdd
+	// spacing: consecutive pass times (sorted) at least the later request's interval apart
 	sort.SliceStable(grants, func(a, b int) bool { return grants[a].pass < grants[b].pass })
 	for j := 1; j < len(grants); j++ {
 		g0, g1 := grants[j-1], grants[j]
@@ -329,6 +385,49 @@ func monitorConc(c concCase, o concObs, rep *emit.Report) (overlap bool) {
 			}
 			fail("C10_conc_spacing", sig, "callers %d and %d: pass times %d and %d, gap %d ns < interval %d ns", g0.tid, g1.tid, g0.pass, g1.pass, g1.pass-g0.pass, need)
 			break
+		}
+	}
+	// the trace step by step against the ledger: at its Load (a step from 201) a caller sees the
+	// ledger; a step from 202 that ends the call with a pass is a successful CAS and moves the
+	// ledger to that caller's pass time; a step from 202 back to 201 is a failed CAS
+	ledger := int64(0) // the checker starts from pass time 0
+	seen := make([]int64, k)
+	loadAt := make([]int, k)
+	for i := range loadAt {
+		loadAt[i] = -1
+	}
+	lastSucc, lastSuccTid := -1, -1 // event index / caller of the latest successful CAS
+	for ei, e := range c.Events {
+		if e.Kind != "run" {
+			continue
+		}
+		i, at, l := e.Tid, o.Ats[ei], o.Labels[ei]
+		b := c.Batches[i]
+		switch {
+		case at == 201:
+			seen[i], loadAt[i] = ledger, ei
+			if l == sched.Done && !o.Out[i].Pass && b > 0 && !early(T, b) {
+				// rejected on the value it loaded: honouring the spacing must need more than the limit
+				nw := needWait(seen[i], ivOf(T, c.StatMs, b), o.Arrival[i])
+				if nw.Cmp(bi(maxq)) <= 0 {
+					fail("C10_conc_reject_only_if_needed", "conc-spurious-rejection", "caller %d rejected although latest pass %d + interval %d - arrival %d = %s <= limit %d", i, seen[i], ivOf(T, c.StatMs, b), o.Arrival[i], nw, maxq)
+				}
+			}
+		case at == 202 && l == sched.Done && o.Out[i].Pass:
+			if b > 0 && !early(T, b) {
+				nw := needWait(seen[i], ivOf(T, c.StatMs, b), o.Arrival[i])
+				if nw.Sign() <= 0 && o.Out[i].Wait != 0 {
+					fail("C10_conc_no_banking", "conc-idle-request-delayed", "caller %d found the resource idle (latest pass %d + interval <= arrival %d) but was asked to wait %d", i, seen[i], o.Arrival[i], o.Out[i].Wait)
+				}
+				ledger = o.Arrival[i] + o.Out[i].Wait
+				lastSucc, lastSuccTid = ei, i
+			}
+		case at == 202 && l == 201:
+			// failed CAS: another caller's CAS must have succeeded since this caller's load
+			// (a caller still in its loop has not succeeded itself)
+			if !(lastSucc > loadAt[i] && lastSuccTid != i) {
+				fail("C10_conc_lock_free", "cas-failed-without-concurrent-success", "caller %d: CAS failed at event %d although no other caller's CAS succeeded since its load at event %d", i, ei, loadAt[i])
+			}
 		}
 	}
 	return
@@ -393,8 +492,14 @@ func runConcCase(a cli.Args, root *rng.R, rep *emit.Report, dist *emit.Distinct,
 		if contains(o.Paths[i], 205) {
 			rep.Count("conc_rollbacks", 1)
 		}
-		if contains(o.Paths[i], 202) && contains(o.Paths[i], 203) {
-			rep.Count("conc_lost_cas", 1)
+		for j := 1; j < len(o.Paths[i]); j++ {
+			if o.Paths[i][j-1] == 202 && o.Paths[i][j] == 201 {
+				rep.Count("conc_failed_cas", 1)
+			}
+		}
+		if !o.Out[i].Pass && o.Arrival[i] != 0 && len(o.Paths[i]) >= 2 {
+			// rejected on a loaded value: was its clock reading older than the clock at its load?
+			rep.Count("conc_rejected_at_load", 1)
 		}
 		if o.Out[i].Pass {
 			rep.Count("conc_admitted", 1)
